@@ -50,6 +50,18 @@ func decodeCase(c c07Case) (obs, bad string) {
 		if err2 != nil || !bytes.Equal(again, first) {
 			return obs + fmt.Sprintf("|again=%x|%s", again, errStr(err2)), "decoding the same text again after the caller overwrote the first result gives different bytes"
 		}
+		// ... and once more: the SECOND result is the caller's too
+		for i := range again {
+			again[i] = 0x11
+		}
+		var third []byte
+		var err3 error
+		if p := try(func() { third, err3 = otp.DecodeSecret(c.Text) }); p != "" {
+			return "panic:" + p, "third decode panicked: " + p
+		}
+		if err3 != nil || !bytes.Equal(third, first) {
+			return obs + fmt.Sprintf("|third=%x|%s", third, errStr(err3)), "decoding the same text a third time after the caller overwrote the second result gives different bytes"
+		}
 		got = first
 	}
 	switch v {
@@ -308,6 +320,21 @@ func c07(r *ev.Run) {
 			run(two, &local)
 			run("MZ"+two+"6YTB", &local)
 			run("MZXW6Y"+two, &local)
+		}
+		r.Eval(local)
+	})
+	// padding in the middle at EVERY block boundary: the padded text of a key of n bytes (n not a multiple of 5)
+	// followed by more valid text, for all n up to 330 (the '=' run ends at offsets 7, 15, 23 ... 527)
+	ev.Par(331, func(n int) {
+		if n%5 == 0 {
+			return
+		}
+		var local int64
+		u := ref.B32Encode(patt(n, byte(n)))
+		head := u + strings.Repeat("=", ref.B32Pad(len(u)))
+		for _, tail := range []string{"MZXW6YTB", "MY======", "A", strings.ToLower(head), strings.Repeat("MZXW6YTB", 9)} {
+			run(head+tail, &local)
+			run(" "+strings.ToLower(head)+tail+"\n", &local)
 		}
 		r.Eval(local)
 	})
